@@ -250,3 +250,41 @@ def char_more(I, m, a, dt):
     if is_conc(c): return VBool(chr(c).isalnum() if k == 'is_alphanumeric' else chr(c).isnumeric())
     if I.branch(c < 128): return VBool(zor(dig, up, lo) if k == 'is_alphanumeric' else dig)
     raise Unsupported(k + ' on a symbolic non-ASCII char')
+
+@model(r'^core::str::<impl str>::split_whitespace$')
+def str_split_whitespace(I, m, a, dt):
+    s = gs(I, a[0]); parts = []; i = s.lo
+    while i < s.hi:
+        while i < s.hi and I.branch(is_ws_cond(s.chars[i][0].v)): i += 1
+        j = i
+        while j < s.hi and not I.branch(is_ws_cond(s.chars[j][0].v)): j += 1
+        if j > i: parts.append(sref(StrS(s.chars, i, j)))
+        i = j
+    return VObj('veciter', items=parts, pos=0, end=None)
+@model(r'^(?:alloc::|std::|core::)?str::<impl str>::(to_lowercase|to_uppercase|to_ascii_lowercase|to_ascii_uppercase)$|^str::(to_lowercase|to_uppercase)$')
+def str_case(I, m, a, dt):
+    s = gs(I, a[0]); k = m.group(1) or m.group(2); out = []
+    for c, w in s.chars[s.lo:s.hi]:
+        v = c.v
+        if is_conc(v):
+            ch = chr(v); t = ch.lower() if 'lower' in k else ch.upper()
+            if 'ascii' in k and v >= 128: t = ch
+            if len(t) != 1: raise Unsupported('case mapping that changes the length')
+            out.append((VInt(ord(t), 'char'), len(t.encode())))
+        else:
+            if w != 1: raise Unsupported('case mapping of a symbolic multi-byte char')
+            up = zand(v >= 65, v <= 90); lo_ = zand(v >= 97, v <= 122)
+            out.append((VInt(zite(up, v + 32, v) if 'lower' in k else zite(lo_, v - 32, v), 'char'), 1))
+    return StrS(out)
+@model(r'^<(?:std::string::)?String as FromIterator<(?:(?:std::string::)?String|&str|char)>>::from_iter::<.*>$')
+def string_from_iter(I, m, a, dt):
+    from .coll import into_iter_any, iter_next
+    it = into_iter_any(I, a[0], m.group(0)); out = []
+    for _ in range(4096):
+        x = iter_next(I, it)
+        if x.variant == 'None': return StrS(out)
+        v = deref(I, x.items[0])
+        if isinstance(v, VInt): out.append((v, 1 if (not is_conc(v.v) or v.v < 128) else len(chr(v.v).encode())))
+        else:
+            t = gs(I, v); out += t.chars[t.lo:t.hi]
+    raise PathEnd('bound', 'String::from_iter')
